@@ -369,10 +369,11 @@ func c05Extras(c *Check) {
 		spec := bfOr(bfCmp(n, "!=", constSym(0)),
 			bfCmp(CallSym(getVote, st), "!=", CallSym(getVote, prev)),
 			bfCmp(CallSym(getTerm, st), "!=", CallSym(getTerm, prev)))
-		for _, ret := range returnsOf(fi) {
-			code := fi.valueBF(fi.RetVal(ret, 0), 0)
+		if code := p.ReturnFormula(mustSync); code != nil {
 			ok, why := bfEquiv(code, spec)
-			c.Result(ok, "C05.M", "return of MustSync", fnName(mustSync), p.site(ret), "entsnum != 0 || vote changed || term changed", fmt.Sprintf("code: %s %s", code, why))
+			c.Result(ok, "C05.M", "return of MustSync", fnName(mustSync), p.Pos(mustSync.Pos()), "entsnum != 0 || vote changed || term changed", fmt.Sprintf("code: %s %s", code, why))
+		} else {
+			c.Undecided("C05.M", "return of MustSync", fnName(mustSync), p.Pos(mustSync.Pos()), "entsnum != 0 || vote changed || term changed", "function too complex to summarise")
 		}
 		// its use in Ready construction
 		msF := p.Field("raft", "Ready", "MustSync")
